@@ -187,6 +187,38 @@ def run_single(text, optargs=(), name="case.pdb", as_path=False, write_pka=True,
     return r
 
 
+def run_main(files, optargs=()):
+    """propka.run.main on several files in ONE invocation (one shared options object).
+    files: list of (name, text). Returns ({name: .pka text or None}, exception type or None)."""
+    import propka.run
+    tmp = tempfile.mkdtemp(prefix="vpmain-")
+    cwd = os.getcwd()
+    exc = None
+    out = {}
+    try:
+        os.chdir(tmp)
+        for name, text in files:
+            with open(os.path.join(tmp, name), "w") as fh:
+                fh.write(text)
+        names = [n for n, _ in files]
+        args = list(optargs) + ["-q"] + sum((["-f", f] for f in names[:-1]), []) + [names[-1]]
+        with capture_logs(logging.WARNING, False):
+            try:
+                propka.run.main([args])
+            except BaseException as e:  # noqa
+                if isinstance(e, (KeyboardInterrupt, MemoryError)):
+                    raise
+                exc = type(e).__name__
+        for name in names:
+            stem = os.path.splitext(name)[0]
+            cands = sorted(f for f in os.listdir(tmp) if f.endswith(".pka") and f.startswith(stem))
+            out[name] = open(os.path.join(tmp, cands[0])).read() if cands else None
+    finally:
+        os.chdir(cwd)
+        shutil.rmtree(tmp, ignore_errors=True)
+    return out, exc
+
+
 def record_of(mol, with_atoms=False, profiles=False):
     rec = {"names": list(mol.conformation_names), "confs": {}}
     for name in list(mol.conformation_names) + ["AVR"]:
